@@ -14,14 +14,6 @@ use vstd::prelude::*;
 }
 //@end
 
-impl Decoder {
-//@extract encoding::Decoder::utf8 | src/encoding.rs :: impl Decoder :: fn utf8 | serves=C09
- pub fn utf8() -> (r: Self) {
-        Decoder {
-        }
-    }
-//@end
-}
 
 // (the method of `impl Iterator for CDataIterator` is hosted in an inherent impl: vstd's Iterator model is not needed for it)
 impl<'a> CDataIterator<'a> {
